@@ -223,7 +223,9 @@ SWEEP_DOC = ("string literals with quotes, runs of quotes, backslashes, backslas
 
 # (PRQL source text of the literal - double-quoted, escapes as PRQL reads them -, the string it denotes)
 _STRINGS = [('"plain"', "plain"), ('"it\'s"', "it's"), ('"a\'\'b"', "a''b"), ('"\'\'\'"', "'''"), ('"\'\'"', "''"), ('"say \\"hi\\""', 'say "hi"'),
-            ('"c:\\\\dir"', "c:\\dir"), ('"a\\\\"', "a\\"), ('"x\\\\\'y"', "x\\'y"), ('"a\\\\\'\'"', "a\\''"), ('"\\\\\\\\"', "\\\\"), ("r'raw\\n'", "raw\\n"), ('"tab\\there"', "tab\there")]
+            ('"c:\\\\dir"', "c:\\dir"), ('"a\\\\"', "a\\"), ('"x\\\\\'y"', "x\\'y"), ('"a\\\\\'\'"', "a\\''"), ('"\\\\\\\\"', "\\\\"), ("r'raw\\n'", "raw\\n"), ('"tab\\there"', "tab\there"),
+            # white space in front of a line break and CR LF inside a literal: nothing that treats the SQL text as lines may touch it (round-6 seed C08-12)
+            ('"Dear customer,  \\nthank you"', "Dear customer,  \nthank you"), ('"col1\\t\\nval1"', "col1\t\nval1"), ('"HTTP/1.1 200 OK\\r\\nHost"', "HTTP/1.1 200 OK\r\nHost")]
 
 
 def _try(items):
@@ -237,7 +239,7 @@ def _try(items):
         return rec
     ok2, rows = replaylib.sqlite_rows("create table t(a integer); insert into t values(1);", sql)
     got = tuple(rows[0]) if ok2 and rows else rows
-    rec.update(failing=got != want, observed=repr(got)[:300], sql=sql)
+    rec.update(failing=repr(got) != repr(want), observed=repr(got)[:300], sql=sql)
     if rec["failing"] and ok2 and len(items) > 1:
         rec["obligation"] = "literals.FM1"
     return rec
@@ -245,7 +247,9 @@ def _try(items):
 
 # number spellings and the value SQLite must see
 _NUMBERS = [("12", 12), ("12_000", 12000), ("9223372036854775807", 9223372036854775807), ("1.5", 1.5), ("1e3", 1000.0), ("2.5e-3", 0.0025), ("12_000.5", 12000.5),
-            ("9223372036854775808", 9.223372036854775808e18), ("18446744073709551615", 1.8446744073709551615e19), ("340282366920938463463374607431768211456", 3.4028236692093846e38)]
+            ("9223372036854775808", 9.223372036854775808e18), ("18446744073709551615", 1.8446744073709551615e19), ("340282366920938463463374607431768211456", 3.4028236692093846e38),
+            # signs: a negative literal is its magnitude under a unary minus - also the negative zero (round-6 seed C08-11)
+            ("-7", -7), ("-1.5", -1.5), ("-0.0", -0.0), ("-9223372036854775807", -9223372036854775807)]
 
 
 def _try_num(items):
